@@ -24,7 +24,29 @@ from guppylang_internals.nodes import (BarrierExpr, GlobalCall, LocalCall, Place
                                        StateResultExpr, TensorCall)
 from guppylang_internals.tys.qubit import contain_qubit_ty  # noqa: E402
 
+from guppylang_internals.tys.arg import TypeArg  # noqa: E402
+from guppylang_internals.tys.qubit import qubit_ty  # noqa: E402
+from guppylang_internals.tys.ty import (FunctionType, NoneType, NumericType, OpaqueType, StructType,  # noqa: E402
+                                        TupleType)
+
 CALLS = (GlobalCall, LocalCall, TensorCall)
+
+
+def tydump(t):
+    """the type in the model's vocabulary: "Q" qubit, "L" leaf, ["O"|"T", args], ["S", args, fields]; args: None = const"""
+    def args(xs):
+        return [tydump(a.ty) if isinstance(a, TypeArg) else None for a in xs]
+    if isinstance(t, OpaqueType):
+        return "Q" if t == qubit_ty() else ["O", args(t.args)]
+    if isinstance(t, TupleType):
+        return ["T", args(t.args)]
+    if isinstance(t, StructType):
+        return ["S", args(t.args), [tydump(f.ty) for f in t.fields]]
+    if isinstance(t, FunctionType):
+        unmodelled.append("function-typed argument")
+        return "L"
+    return "L"
+
 unmodelled = []
 
 
@@ -42,7 +64,7 @@ def dump(n):
                 unmodelled.append("call inside the function expression of a LocalCall")
         else:
             cf = n.tensor_ty.unitary_flags.value
-        return ["C", cf, [[dump(a), bool(contain_qubit_ty(get_type(a)))] for a in n.args]]
+        return ["C", cf, [[dump(a), bool(contain_qubit_ty(get_type(a))), tydump(get_type(a))] for a in n.args]]
     if isinstance(n, (BarrierExpr, StateResultExpr)):
         if any(has_call(a) for a in n.args):
             unmodelled.append("call below a barrier/state_result argument")
